@@ -1,6 +1,7 @@
 package proxy
 
 import (
+	"crypto/rand"
 	"errors"
 	"fmt"
 	"log/slog"
@@ -14,6 +15,7 @@ var (
 	ErrInvalidTargetHost = errors.New("invalid target host")
 	ErrURLParseFailed    = errors.New("URL parse failed")
 	ErrSendRequestFailed = errors.New("error sending request to target")
+	ErrRequestLoop       = errors.New("request loop detected")
 )
 
 // The client used for upstream requests. A proxy relays redirects to its client instead of
@@ -45,6 +47,22 @@ func disableTransparentCompression() {
 		transport.DisableCompression = true
 		noCompressionDone = transport
 	}
+}
+
+// The name under which this proxy instance appears in the Via field of the requests it sends
+// upstream (RFC 9110 section 7.6.3). It is unique per process, so that a request which comes back to
+// the very proxy that sent it can be told from one that merely passed another reservoir.
+var viaPseudonym = "reservoir-" + rand.Text()
+
+// Reports whether the request has passed through this proxy instance before: it is going round in
+// a loop (its target is, or leads back to, this proxy's own address).
+func requestLooped(header http.Header) bool {
+	for _, v := range header.Values("Via") {
+		if strings.Contains(v, viaPseudonym) {
+			return true
+		}
+	}
+	return false
 }
 
 func removeHopByHopHeaders(header http.Header) {
@@ -109,6 +127,10 @@ func sendRequestToTarget(req *http.Request, httpsDefault bool) (*http.Response, 
 	changeRequestToTarget(req, httpsDefault)
 	// Remove hop-by-hop headers in the request that should not be forwarded to the target server.
 	removeHopByHopHeaders(req.Header)
+
+	if !requestLooped(req.Header) {
+		req.Header.Add("Via", "1.1 "+viaPseudonym)
+	}
 
 	disableTransparentCompression()
 
